@@ -23,14 +23,18 @@ type cliOp struct {
 
 type fileState struct {
 	bad bool
+	ck  bool // checkpoint file
 }
 
 type world struct {
 	files map[string]*fileState // version -> state
 }
 
-func fileBody(v string, bad bool, first bool) string {
+func fileBody(v string, bad bool, first bool, ck bool) string {
 	var b strings.Builder
+	if ck {
+		b.WriteString("-- atlas:checkpoint\n\n")
+	}
 	if first {
 		b.WriteString("CREATE TABLE IF NOT EXISTS journal (sid integer NOT NULL);\n")
 	}
@@ -57,7 +61,7 @@ func (w *world) write(wk *clih.Work) error {
 	files := map[string]string{}
 	for v, f := range w.files {
 		// every file can create the journal table: any file may be the first one executed.
-		files[v+"_f.sql"] = fileBody(v, f.bad, true)
+		files[v+"_f.sql"] = fileBody(v, f.bad, true, f.ck)
 	}
 	return wk.WriteDir("migrations", files)
 }
@@ -108,7 +112,7 @@ func journal(wk *clih.Work) (map[int]int, error) {
 func config(w *world, revs []revRow, order int) (Config, bool) {
 	c := Config{Order: order}
 	for _, v := range w.versions() {
-		c.Files = append(c.Files, FileSpec{V: v})
+		c.Files = append(c.Files, FileSpec{V: v, Ck: w.files[v].ck})
 	}
 	for i, r := range revs {
 		partial := r.Applied != r.Total
@@ -158,8 +162,8 @@ func runHistory(ops []cliOp) (problems []string, canon string, applicable bool) 
 		}
 		last := step == len(ops)-1
 		switch op.Kind {
-		case "add", "add_bad":
-			w.files[strconv.Itoa(max+2)] = &fileState{bad: op.Kind == "add_bad"}
+		case "add", "add_bad", "add_ck":
+			w.files[strconv.Itoa(max+2)] = &fileState{bad: op.Kind == "add_bad", ck: op.Kind == "add_ck"}
 			if max+2 > 8 {
 				return nil, "", false
 			}
@@ -222,12 +226,15 @@ func runHistory(ops []cliOp) (problems []string, canon string, applicable bool) 
 				cfgAfter, _ := config(w, revs, 0)
 				_ = cfgAfter
 				st := status(wk, dirURL, dbURL)
-				var want []string
+				// the documented decision for the ideal history "every file up to v applied".
+				ideal := Config{Order: 0}
 				for _, v := range w.versions() {
-					if v > op.V {
-						want = append(want, v)
+					ideal.Files = append(ideal.Files, FileSpec{V: v, Ck: w.files[v].ck})
+					if v <= op.V {
+						ideal.Revs = append(ideal.Revs, RevSpec{V: v})
 					}
 				}
+				want := refPending(ideal).Pending
 				var got []string
 				for _, p := range st.Pending {
 					got = append(got, p.Version)
@@ -255,6 +262,9 @@ func runHistory(ops []cliOp) (problems []string, canon string, applicable bool) 
 			}
 			args = append(args, "--dir", dirURL, "--url", dbURL, "--tx-mode", "none", "--exec-order", flag, "--lock-timeout", "1ms")
 			res := wk.Run(nil, args...)
+			if last && strings.Contains(res.Stderr, "panic:") {
+				bad("`migrate apply` panicked: %s", res)
+			}
 			after, err := journal(wk)
 			if err != nil {
 				return []string{"harness: " + err.Error()}, "", true
@@ -335,8 +345,16 @@ func runHistory(ops []cliOp) (problems []string, canon string, applicable bool) 
 					}
 				}
 			}
+			// canonical state: directory (with file kinds) + every column of the revision rows the
+			// executor reads back (type and partial hashes included: `migrate set` changes only those).
 			revs2, _ := readRevs(wk)
-			canon = fmt.Sprintf("%v|%v", w.versionsWithKind(), revs2)
+			extra := ""
+			if _, err := os.Stat(wk.Path("db.sqlite")); err == nil {
+				if rows, err := wk.Query("db.sqlite", "SELECT version, type, length(partial_hashes) > 4 FROM atlas_schema_revisions ORDER BY version"); err == nil {
+					extra = fmt.Sprint(rows)
+				}
+			}
+			canon = fmt.Sprintf("%v|%v|%s", w.versionsWithKind(), revs2, extra)
 		}
 	}
 	return problems, canon, true
@@ -348,6 +366,9 @@ func (w *world) versionsWithKind() []string {
 		k := v
 		if w.files[v].bad {
 			k += "!"
+		}
+		if w.files[v].ck {
+			k += "c"
 		}
 		out = append(out, k)
 	}
@@ -373,7 +394,7 @@ func status(wk *clih.Work, dirURL, dbURL string) statusOut {
 }
 
 func cliAlphabet() []cliOp {
-	return []cliOp{{Kind: "add"}, {Kind: "add_bad"}, {Kind: "add_ooo"}, {Kind: "apply"}, {Kind: "apply1"}, {Kind: "apply_nonlinear"}, {Kind: "apply_skip"},
+	return []cliOp{{Kind: "add"}, {Kind: "add_bad"}, {Kind: "add_ck"}, {Kind: "add_ooo"}, {Kind: "apply"}, {Kind: "apply1"}, {Kind: "apply_nonlinear"}, {Kind: "apply_skip"},
 		{Kind: "set", V: "2"}, {Kind: "set", V: "4"}, {Kind: "fix"}, {Kind: "remove_newest"}}
 }
 
